@@ -1,6 +1,12 @@
 //! C08: `ViewBounds::view_bounds` for every selector form × every integer type.
-//! Correspondence: Lean model `SurfModel.Slice.viewBounds` (proved equal to the Python spec).
+//! Correspondence: Lean checked machine-integer model `SurfModel.Slice.viewBoundsC` (proved fault-free and
+//! equal to the `Int` model `viewBounds`, which is proved equal to the Python spec).
 //! Oracle: independent Python-slice implementation below (i128 arithmetic).
+//! External anchors (independent of both): the crate's own `test_view_bounds` literals, and a table produced
+//! once by CPython's `slice(a, b).indices(n)` (corpus/C08/python_slices.txt, embedded at build time) — the
+//! implementation (Rust oracle, `fail`) and the Lean specification `pySlice` (`O` lines) are checked against
+//! both.
+#![allow(unused_mut)]
 use verif_harness::{Cfg, r#gen::Rng, out::Out};
 use serde_json::json;
 use std::collections::HashSet;
@@ -65,14 +71,14 @@ impl Ctx {
         got: Result<Option<(usize, usize)>, ()>,
     ) {
         let req = match form {
-            0 if signed => format!("c08 model idxS {a} {n}"),
-            0 => format!("c08 model idxU {a} {n}"),
-            1 => format!("c08 model range {a} {b} {n}"),
-            2 => format!("c08 model from {a} {n}"),
-            3 => format!("c08 model to {b} {n}"),
-            4 => format!("c08 model incl {a} {b} {n}"),
-            5 => format!("c08 model toIncl {b} {n}"),
-            _ => format!("c08 model full {n}"),
+            0 if signed => format!("c08 checked idxS {a} {n}"),
+            0 => format!("c08 checked idxU {a} {n}"),
+            1 => format!("c08 checked range {a} {b} {n}"),
+            2 => format!("c08 checked from {a} {n}"),
+            3 => format!("c08 checked to {b} {n}"),
+            4 => format!("c08 checked incl {a} {b} {n}"),
+            5 => format!("c08 checked toIncl {b} {n}"),
+            _ => format!("c08 checked full {n}"),
         };
         let got_s = show(&got);
         let key = format!("{req} {got_s}");
@@ -162,20 +168,190 @@ macro_rules! one_n {
     }};
 }
 
+/// the selector (form, a, b) in the mathematical values given, written in type `$t`
+macro_rules! typed_call {
+    ($t:ty, $form:expr, $a:expr, $b:expr, $n:expr) => {{
+        let (x, y, n) = ($a as $t, $b as $t, $n);
+        catch_unwind(AssertUnwindSafe(|| match $form {
+            0 => x.view_bounds(n),
+            1 => (x..y).view_bounds(n),
+            2 => (x..).view_bounds(n),
+            3 => (..y).view_bounds(n),
+            4 => (x..=y).view_bounds(n),
+            5 => (..=y).view_bounds(n),
+            _ => (..).view_bounds(n),
+        }))
+        .map_err(|_| ())
+    }};
+}
+
+/// run the selector in EVERY integer type that can hold its bounds; (type name, signed, result)
+fn all_types(form: u8, a: i128, b: i128, n: usize) -> Vec<(&'static str, bool, Result<Option<(usize, usize)>, ()>)> {
+    let mut res = Vec::new();
+    macro_rules! one {
+        ($t:ty, $signed:expr) => {
+            let fits = |v: i128| v >= <$t>::MIN as i128 && v <= <$t>::MAX as i128;
+            let need_a = matches!(form, 0 | 1 | 2 | 4);
+            let need_b = matches!(form, 1 | 3 | 4 | 5);
+            if (!need_a || fits(a)) && (!need_b || fits(b)) {
+                res.push((stringify!($t), $signed, typed_call!($t, form, a, b, n)));
+            }
+        };
+    }
+    one!(i8, true);
+    one!(u8, false);
+    one!(i16, true);
+    one!(u16, false);
+    one!(i32, true);
+    one!(u32, false);
+    one!(i64, true);
+    one!(u64, false);
+    one!(isize, true);
+    one!(usize, false);
+    res
+}
+
+fn spec_request(form: u8, signed: bool, a: i128, b: i128, n: usize) -> String {
+    match form {
+        0 if signed => format!("c08 spec idxS {a} {n}"),
+        0 => format!("c08 spec idxU {a} {n}"),
+        1 => format!("c08 spec range {a} {b} {n}"),
+        2 => format!("c08 spec from {a} {n}"),
+        3 => format!("c08 spec to {b} {n}"),
+        4 => format!("c08 spec incl {a} {b} {n}"),
+        5 => format!("c08 spec toIncl {b} {n}"),
+        _ => format!("c08 spec full {n}"),
+    }
+}
+
+/// anchor case: `expected` comes from OUTSIDE this harness (the crate's test or CPython)
+fn anchor(ctx: &mut Ctx, source: &str, form: u8, a: i128, b: i128, n: usize, expected: Option<(usize, usize)>) {
+    let want = show(&Ok(expected));
+    // the Rust reference of this harness must agree with the anchor too (a disagreement is a defect of the
+    // harness, reported loudly because every other verdict rests on `py`)
+    if py(form, a, b, n as i128) != expected {
+        ctx.out.fail(
+            &format!("HARNESS: Rust reference `py` disagrees with {source}"),
+            json!({"form": form, "a": a.to_string(), "b": b.to_string(), "n": n.to_string()}),
+            json!(want),
+            json!(show(&Ok(py(form, a, b, n as i128)))),
+        );
+    }
+    let mut signs = Vec::new();
+    for (ty, signed, got) in all_types(form, a, b, n) {
+        ctx.out.case(&format!("anchor {source} {ty} {form} {a} {b} {n}"), true);
+        ctx.out.hist(&format!("anchor:{source}"));
+        if got != Ok(expected) {
+            ctx.out.fail(
+                &format!("view_bounds differs from {source}"),
+                json!({"type": ty, "form": form, "a": a.to_string(), "b": b.to_string(), "n": n.to_string()}),
+                json!(want),
+                json!(show(&got)),
+            );
+        }
+        if !signs.contains(&signed) {
+            signs.push(signed);
+        }
+        // the usual judgement and correspondence line as well
+        ctx.check(ty, signed, form, a, b, n, got);
+    }
+    // the Lean specification against the anchor (single index: once per signedness that occurs)
+    if form != 0 {
+        signs.truncate(1);
+    }
+    for signed in signs {
+        ctx.out.oracle(&spec_request(form, signed, a, b, n), &want);
+    }
+}
+
+/// the fifteen assertions of `test_view_bounds` (src/surface.rs)
+const CRATE_TEST: [(u8, i128, i128, usize, Option<(usize, usize)>); 15] = [
+    (6, 0, 0, 10, Some((0, 10))),
+    (3, 0, -1, 10, Some((0, 9))),
+    (5, 0, -1, 10, Some((0, 10))),
+    (1, -5, 8, 10, Some((5, 8))),
+    (2, -10, 0, 10, Some((0, 10))),
+    (3, 0, 20, 10, Some((0, 10))),
+    (1, 10, 20, 10, None),
+    (1, 9, 20, 10, Some((9, 10))),
+    (2, 10, 0, 10, None),
+    (0, 1, 0, 10, Some((1, 2))),
+    (0, -1, 0, 10, Some((9, 10))),
+    (0, -10, 0, 10, Some((0, 1))),
+    (0, -11, 0, 10, None),
+    (0, 10, 0, 10, None),
+    (0, 10, 0, 0, None),
+];
+
+/// `slice(a, b).indices(n)` as evaluated by CPython (generated once, see corpus/C08/gen_python_slices.py)
+const PYTHON_TABLE: &str = include_str!("../../../corpus/C08/python_slices.txt");
+
+fn anchors(ctx: &mut Ctx) {
+    for (form, a, b, n, expected) in CRATE_TEST {
+        anchor(ctx, "the crate's test_view_bounds", form, a, b, n, expected);
+    }
+    let mut rows = 0u64;
+    for line in PYTHON_TABLE.lines() {
+        if line.starts_with('#') || line.trim().is_empty() {
+            continue;
+        }
+        let f: Vec<&str> = line.split(' ').collect();
+        assert!(f.len() == 5, "malformed table line {line}");
+        let opt = |s: &str| if s == "-" { None } else { Some(s.parse::<i128>().expect("table bound")) };
+        let (a, b) = (opt(f[0]), opt(f[1]));
+        let n: usize = f[2].parse().expect("table n");
+        let start: i128 = f[3].parse().expect("table start");
+        let stop: i128 = f[4].parse().expect("table stop");
+        let expected = if start < stop { Some((start as usize, stop as usize)) } else { None };
+        let form = match (a, b) {
+            (Some(_), Some(_)) => 1,
+            (Some(_), None) => 2,
+            (None, Some(_)) => 3,
+            (None, None) => 6,
+        };
+        anchor(ctx, "CPython slice.indices", form, a.unwrap_or(0), b.unwrap_or(0), n, expected);
+        rows += 1;
+    }
+    ctx.out.extra("anchors", json!({"crate_test_literals": CRATE_TEST.len(), "cpython_table_rows": rows}));
+}
+
 fn main() {
     let cfg = Cfg::from_env();
     let out = cfg.out();
     verif_harness::silence_panics();
     let mut ctx = Ctx { out, seen: HashSet::new() };
     let mut rng = Rng::new(cfg.seed);
+    if let Some(r) = &cfg.replay {
+        // re-run exactly the recorded selector (in the recorded integer type, or in every type that holds it)
+        let inp = &r["failure"]["input"];
+        let num = |k: &str| inp[k].as_str().and_then(|s| s.parse::<i128>().ok()).unwrap_or(0);
+        let form = inp["form"].as_u64().unwrap_or(6) as u8;
+        let (a, b) = (num("a"), num("b"));
+        let n = inp["n"].as_str().and_then(|s| s.parse::<usize>().ok()).unwrap_or(0);
+        let want_ty = inp["type"].as_str().unwrap_or("-").to_string();
+        for (ty, signed, got) in all_types(form, a, b, n) {
+            if want_ty == "-" || want_ty == ty || form == 6 {
+                ctx.check(ty, signed, form, a, b, n, got);
+            }
+        }
+        ctx.out.sample(json!({"replay": inp}));
+        ctx.out.finish("replay of one recorded selector");
+        return;
+    }
+    anchors(&mut ctx);
     let mut ns: Vec<usize> = (0..=12).collect();
     ns.extend([127, 128, 200, 255, 256, 1 << 31, (1 << 63) - 1, 1 << 63, usize::MAX]);
+    // axis lengths 13..=40: full span in the thorough tier, reduced span (plus the n-relative and type-extreme
+    // values `run_type` always adds) in the quick tier
+    let ns_mid: Vec<usize> = (13..=40).collect();
     if cfg.thorough {
         ns.extend(13..=40);
         ns.extend([32767, 32768, 65535, 65536, u32::MAX as usize, (u32::MAX as usize) + 1]);
     }
     let span: i128 = if cfg.thorough { 30 } else { 14 };
     let bounds: Vec<i128> = (-span..=span).collect();
+    let span_mid: i128 = 3;
+    let bounds_mid: Vec<i128> = (-span_mid..=span_mid).collect();
     let random: u64 = if cfg.thorough { 400_000 } else { 4_000 };
 
     // `..` has no integer type
@@ -192,6 +368,21 @@ fn main() {
     run_type!(ctx, u64, false, ns, bounds, rng, random);
     run_type!(ctx, isize, true, ns, bounds, rng, random);
     run_type!(ctx, usize, false, ns, bounds, rng, random);
-    ctx.out.extra("exhaustive_grid", json!({"axis_lengths": ns.iter().map(|n| n.to_string()).collect::<Vec<_>>(), "bound_span": span, "types": 10, "forms": 7}));
-    ctx.out.finish("grid: every axis length in the list x every bound in [-span, span] + type MIN/MAX neighbourhood + multiples of n, for each of the 10 integer types and 7 selector forms, plus random bounds over the whole type; non-trivial = n > 0 and (some bound negative or beyond the axis, or the selection non-empty); distinct by (request, answer)");
+    if !cfg.thorough {
+        for &n in ns_mid.iter() {
+            ctx.check("-", false, 6, 0, 0, n, catch_unwind(AssertUnwindSafe(|| (..).view_bounds(n))).map_err(|_| ()));
+        }
+        run_type!(ctx, i8, true, ns_mid, bounds_mid, rng, 0);
+        run_type!(ctx, u8, false, ns_mid, bounds_mid, rng, 0);
+        run_type!(ctx, i16, true, ns_mid, bounds_mid, rng, 0);
+        run_type!(ctx, u16, false, ns_mid, bounds_mid, rng, 0);
+        run_type!(ctx, i32, true, ns_mid, bounds_mid, rng, 0);
+        run_type!(ctx, u32, false, ns_mid, bounds_mid, rng, 0);
+        run_type!(ctx, i64, true, ns_mid, bounds_mid, rng, 0);
+        run_type!(ctx, u64, false, ns_mid, bounds_mid, rng, 0);
+        run_type!(ctx, isize, true, ns_mid, bounds_mid, rng, 0);
+        run_type!(ctx, usize, false, ns_mid, bounds_mid, rng, 0);
+    }
+    ctx.out.extra("exhaustive_grid", json!({"axis_lengths": ns.iter().map(|n| n.to_string()).collect::<Vec<_>>(), "bound_span": span, "axis_lengths_reduced_span": if cfg.thorough { vec![] } else { ns_mid.iter().map(|n| n.to_string()).collect::<Vec<_>>() }, "reduced_span": span_mid, "types": 10, "forms": 7}));
+    ctx.out.finish("anchors first (the crate's 15 test_view_bounds literals and the CPython slice.indices table, each in every integer type that holds the bounds); grid: every axis length in the list x every bound in [-span, span] + type MIN/MAX neighbourhood + multiples of n, for each of the 10 integer types and 7 selector forms (quick tier: axis lengths 13..=40 with span 3), plus random bounds over the whole type; non-trivial = n > 0 and (some bound negative or beyond the axis, or the selection non-empty); distinct by (request, answer)");
 }
